@@ -237,11 +237,14 @@ pub enum Doc {
     Block(String),
     /// `#[doc = "text"]` (anything)
     Attr(String),
+    /// not documentation: another attribute written between two doc lines (`#[allow(dead_code)]`, `#[doc(hidden)]`)
+    NonDoc(String),
 }
 impl Doc {
     pub fn text(&self) -> &str {
         match self {
             Doc::Line(s) | Doc::Block(s) | Doc::Attr(s) => s,
+            Doc::NonDoc(_) => "",
         }
     }
 }
@@ -461,6 +464,10 @@ fn doc_lines(docs: &[Doc], ind: &str, out: &mut String) {
             Doc::Attr(t) => {
                 out.push_str(ind);
                 out.push_str(&format!("#[doc = {}]\n", esc(t)));
+            }
+            Doc::NonDoc(a) => {
+                out.push_str(ind);
+                out.push_str(&format!("#[{a}]\n"));
             }
         }
     }
